@@ -68,8 +68,32 @@ def run_fmt(prog, p, merge=False):
             return ip, []
     fref = RefVal(st.new_heap(p.frame), False)
     fm = RefVal(st.new_heap(Opaque.make("formatter")), True)
+    ip.frame_cell = fref.loc[1]
     outs = ip.run_function(prog.fns[FMT], [fref, fm], st)
     return ip, outs
+
+
+def loc_field_path(prog, frame, cell, loc):
+    """names of the fields along a location inside the rendered frame's own storage (None if the value lives elsewhere)"""
+    if not loc or loc[0] != "H" or loc[1] != cell:
+        return None
+    v = frame
+    names = []
+    for pr in loc[-1]:
+        if pr[0] == "f":
+            if isinstance(v, AdtVal) and pr[1] < len(v.fields):
+                fn_ = decode.field_names(prog, v)
+                names.append(fn_[pr[1]])
+                v = v.fields[pr[1]]
+                if isinstance(v, AdtVal) and v.vname and v.vname != v.path.split("::")[-1]:
+                    names.append(v.vname)       # the variant the field holds on this path (as in leaf paths)
+            else:
+                return names or None
+        elif pr[0] == "d":
+            continue
+        else:
+            return names or None
+    return names
 
 
 def keyword_of(text):
@@ -89,7 +113,7 @@ def render_rules(rep, prog, oks):
         return
     idx = site_index(prog)
     reps = tracker.representative_paths(oks)
-    n_ph = 0
+    n_ph = n_loc = 0
     sites_seen = set()
     for label, p in sorted(reps.items()):
         ip, outs = run_fmt(prog, p, merge=True)
@@ -134,6 +158,18 @@ def render_rules(rep, prog, oks):
                     kw, fields = keyword_of(prev)
                     prev_for_msg = prev.strip()
                     prev = ""
+                    # identity of the printed field when it is borrowed in place from the frame (also decides fieldless enums,
+                    # whose value carries no bit provenance once the path is fixed)
+                    lp = None
+                    if ai < len(e.get("locs") or ()):
+                        lp = loc_field_path(prog, p.frame, ip.frame_cell, e["locs"][ai])
+                    lp = [x for x in (lp or []) if not x.isdigit()]
+                    if lp and kw is not None and kw not in ("icao address", "address"):
+                        n_loc += 1
+                        if not (set(lp) & fields):
+                            rep.violation("R1", "label:%s:%s" % (kw.replace(" ", "-"), lp[-1]),
+                                          "%s: the value printed after the label '%s' is the field %s, not %s" % (label, prev_for_msg, ".".join(lp), "/".join(sorted(fields))))
+                            continue
                     if not d:
                         continue
                     n_ph += 1
@@ -175,6 +211,7 @@ def render_rules(rep, prog, oks):
             rep.violation("R5", "empty-report:%s" % label, "%s renders an empty report on some path" % label)
     rep.floor("placeholders with decoded values", 150, n_ph)
     rep.floor("format sites exercised", 60, len(sites_seen))
+    rep.floor("labelled placeholders identified by field location", 20, n_loc)
 
 
 ENUM_WORDS = {
